@@ -14,7 +14,12 @@ inductive Lx where
   | tok (t : BTok)
   deriving DecidableEq, Repr
 
-/-- read one lexeme from the front (lexer.rs `read_id` + the payload reader of its type) -/
+/-- read one lexeme from the front (lexer.rs `read_id` + the payload reader of its type).
+NB: this reuses the model's own slice readers and decoders — `readId`, `split?`, `readBool`, `readString`,
+`leNat`, `toSigned` of `Model/BinTape.lean` — so the lexeme list is *defined* through the same
+byte→lexeme decoding the parser model uses.  That decoding itself (ids, payload widths, little-endian /
+two's-complement values, length-prefixed strings) is tied to the code by C08's codec theorems and
+correspondence (Model/BinLexer, `lex` ops), not by C03; C03 is about what the tape does with the lexemes. -/
 def lexOne (d : Bytes) : Option (Lx × Bytes) :=
   match readId d with
   | none => none
